@@ -12,10 +12,10 @@ import (
 // C06: lineages of tables (sizes straddling the size limit, tombstones shadowing older live values),
 // then compaction cycles; every key is read before and after each cycle and after later steps.
 type c06Case struct {
-	Opts   dbOpts     `json:"opts"`
-	Steps  []dbStep   `json:"steps"`
-	Keys   [][]byte   `json:"keys"`
-	Flood  [][]bool   `json:"flood,omitempty"` // floodFill inputs (exhaustive small vectors)
+	Opts  dbOpts   `json:"opts"`
+	Steps []dbStep `json:"steps"`
+	Keys  [][]byte `json:"keys"`
+	Flood [][]bool `json:"flood,omitempty"` // floodFill inputs (exhaustive small vectors)
 	// observations
 	Sweeps   [][]dbStep `json:"sweeps,omitempty"` // before the first step of kind compact/rotate/reopen ... and after each
 	FloodOut [][]bool   `json:"flood_out,omitempty"`
@@ -289,9 +289,9 @@ func genC06(r *rand.Rand, tier string) []Case {
 func init() {
 	register(&Prop{
 		ID: "C06", Num: 6,
-		Gen: genC06,
-		New: func() Case { return &c06Case{} },
-		Rule: "floodFill on ALL boolean vectors up to length 10 (thorough 14); lineages of 2-6 tables built through the real DB (a big oldest table that the size limit excludes, deletes shadowing older live values, sizes on both sides of the limit, ratios .2/.5/1, thresholds 0/1/2), one synchronous compaction cycle via hook, then further flushes, cycles and restarts; every key read immediately before and after each cycle and after each later step; selection checked to be a gap-free run of the live tables. Non-trivial: a cycle that merged >=2 tables.",
+		Gen:      genC06,
+		New:      func() Case { return &c06Case{} },
+		Rule:     "floodFill on ALL boolean vectors up to length 10 (thorough 14); lineages of 2-6 tables built through the real DB (a big oldest table that the size limit excludes, deletes shadowing older live values, sizes on both sides of the limit, ratios .2/.5/1, thresholds 0/1/2), one synchronous compaction cycle via hook, then further flushes, cycles and restarts; every key read immediately before and after each cycle and after each later step; selection checked to be a gap-free run of the live tables. Non-trivial: a cycle that merged >=2 tables.",
 		Classify: func(cs Case, msg string) string { return classifyC06a(cs.(*c06Case).Steps, msg) },
 		Shrink: func(cs Case) []Case {
 			c := cs.(*c06Case)
